@@ -253,7 +253,68 @@ def run(ctx: C.Ctx):
                           {"signature": "tailShuffle-correspondence", "case": desc, "observed": out, "model": model_final,
                            "index": idx},
                           broken="correspondence tailShuffle ↔ SSPOR.fit shuffle (theorem tailShuffle_perm)")
+    _nonfinite_costs_part(ctx)
     _sspoc_part(ctx)
+
+
+_NF = {"inf": float("inf"), "-inf": float("-inf"), "nan": float("nan")}
+
+
+def _dec_costs(cs):
+    return np.array([_NF[c] if isinstance(c, str) else float(c) for c in cs], dtype=float)
+
+
+def _nonfinite_costs_case(ctx, desc, idx):
+    """CCQR with costs that are not finite numbers: +inf ("never here"), -inf ("must be here"), NaN (a missing price).
+    "Whatever … sensor costs … are used" – the ranking is still a permutation and SSPOR's selection still has the reported count:
+    in the model the costs live inside the arbitrary pivot oracle (pivLoop_perm needs nothing about it)."""
+    from pysensors.optimizers import CCQR
+    from pysensors.reconstruction import SSPOR
+    B = np.array(desc["B"], dtype=float)
+    n = B.shape[0]
+    costs = _dec_costs(desc["costs"])
+    ctx.evaluations += 1
+    ctx.count("nonfinite_costs:" + desc["via"])
+    import warnings
+    with warnings.catch_warnings():
+        warnings.simplefilter("ignore")
+        try:
+            if desc["via"] == "ccqr":
+                r = np.array(CCQR(sensor_costs=costs.copy()).fit(B.copy()).get_sensors()).tolist()
+                sel, ns = None, None
+            else:
+                model = SSPOR(basis=models.make_basis("identity", None), optimizer=CCQR(sensor_costs=costs.copy()))
+                model.fit(B.T.copy(), quiet=True, seed=desc.get("seed", 0))
+                r = np.array(model.get_all_sensors()).tolist()
+                sel, ns = np.array(model.get_selected_sensors()).tolist(), model.n_sensors
+        except ValueError:
+            ctx.count("nonfinite_costs_rejected(ValueError)")     # refusing such costs outright is a result too
+            return
+    if not gen.is_perm(r, n):
+        ctx.violation("concrete", f"CCQR ranking {r} with costs {desc['costs']} is not a permutation of range({n})",
+                      {"signature": "optimizer-ranking-not-permutation", "nonfinite_case": desc, "observed": r,
+                       "required": f"a permutation of 0..{n-1}", "index": idx})
+        return
+    if sel is not None and (len(sel) != ns or len(set(sel)) != len(sel) or sel != r[:ns]):
+        ctx.violation("concrete", f"SSPOR(CCQR) with costs {desc['costs']}: {len(sel)} selected sensors, n_sensors={ns}",
+                      {"signature": "sspor-selection-count", "nonfinite_case": desc, "observed": {"selected": sel, "n_sensors": ns},
+                       "index": idx})
+        return
+    ctx.nontriv(("nonfinite", desc["via"], tuple(desc["costs"]), tuple(r)))
+
+
+def _nonfinite_costs_part(ctx):
+    rng = ctx.rng
+    for idx in range(ctx.scale(40, 400)):
+        B, kind = gen.gen_matrix(rng, max_n=ctx.scale(8, 16), max_m=ctx.scale(6, 10))
+        n = B.shape[0]
+        if n < 2:
+            continue
+        cs = [rng.randint(-8, 8) / 2 for _ in range(n)]
+        for i in rng.sample(range(n), rng.randint(1, max(1, n // 2))):
+            cs[i] = rng.choice(["inf", "-inf", "-inf", "nan"])
+        desc = {"B": B.tolist(), "costs": cs, "via": rng.choice(["ccqr", "sspor"]), "seed": rng.randint(0, 9)}
+        _nonfinite_costs_case(ctx, desc, idx)
 
 
 def _sspoc_part(ctx):
@@ -317,7 +378,9 @@ def _sspoc_part(ctx):
 def replay(ctx: C.Ctx, payload):
     d = payload["data"]
     case = d.get("case", {})
-    if "kind" in case:
+    if "nonfinite_case" in d:
+        _nonfinite_costs_case(ctx, d["nonfinite_case"], d.get("index", 0))
+    elif "kind" in case:
         oc = OptCase.from_desc(case)
         res = _check_opt_case(ctx, oc, d.get("index", 0))
         if res is not None and res.get("offsets") is not None and oc.kind != "qr":
